@@ -612,6 +612,106 @@ func boundary(r *vh.RNG, n, t int, seed uint64, emit func(*seqCase)) {
 	}
 }
 
+// afterCompletion: on ONE EpochKG instance, first `done` identities collect their t shares and get
+// their key, then k further identities receive their t valid shares interleaved in the given order
+// (order[i] = which of the k identities the i-th share of the second phase is for). The senders of
+// an identity's shares follow `pattern`: 0 = every identity hears from the same senders in the same
+// order (the same sender for different identities back to back), 1 = rotated by the identity's
+// number, 2 = a random order per identity. With junk > 0 that many junk shares of random kinds are
+// mixed into the second phase.
+func afterCompletion(r *vh.RNG, n, t, k, done, pattern int, order []int, junk int, seed uint64) *seqCase {
+	c := &seqCase{Kind: "seq", N: n, T: t, KeySeed: seed, Origin: fmt.Sprintf("after-completion:k=%d,done=%d,pattern=%d,junk=%d", k, done, pattern, junk)}
+	for i := 0; i < done+k; i++ {
+		c.Idents = append(c.Idents, fmt.Sprintf("%02x%02x%02x", 0xd0+i, 0x11*i, i))
+	}
+	senders := make([][]int, done+k)
+	base := r.Perm(n)
+	for j := range senders {
+		switch pattern {
+		case 0:
+			senders[j] = base
+		case 1:
+			senders[j] = make([]int, n)
+			for i := range senders[j] {
+				senders[j][i] = (i + j) % n
+			}
+		default:
+			senders[j] = r.Perm(n)
+		}
+	}
+	for j := 0; j < done; j++ {
+		for i := 0; i < t; i++ {
+			c.Ops = append(c.Ops, opJ{Ident: j, Sender: senders[j][i], Kind: kValid})
+		}
+	}
+	next := make([]int, k)
+	for _, x := range order {
+		j := done + x
+		c.Ops = append(c.Ops, opJ{Ident: j, Sender: senders[j][next[x]], Kind: kValid})
+		next[x]++
+	}
+	for q := 0; q < junk; q++ {
+		at := done*t + r.Intn(len(c.Ops)-done*t+1)
+		o := junkOp(c, vh.Pick(r, junkKinds...), done+r.Intn(k), r.Intn(n))
+		c.Ops = append(c.Ops[:at], append([]opJ{o}, c.Ops[at:]...)...)
+	}
+	return c
+}
+
+// interleavings enumerates every order in which k identities can receive t shares each.
+func interleavings(k, t int, f func(order []int)) {
+	left := make([]int, k)
+	for i := range left {
+		left[i] = t
+	}
+	cur := make([]int, 0, k*t)
+	var rec func()
+	rec = func() {
+		if len(cur) == k*t {
+			f(append([]int{}, cur...))
+			return
+		}
+		for x := 0; x < k; x++ {
+			if left[x] > 0 {
+				left[x]--
+				cur = append(cur, x)
+				rec()
+				cur = cur[:len(cur)-1]
+				left[x]++
+			}
+		}
+	}
+	rec()
+}
+
+func countInterleavings(k, t int) int {
+	// (k*t)! / (t!)^k
+	num := 1
+	c := 1
+	for x := 0; x < k; x++ {
+		for i := 1; i <= t; i++ {
+			num = num * c / i // binomial prefix products stay integral
+			c++
+		}
+	}
+	return num
+}
+
+func randomInterleaving(r *vh.RNG, k, t int) []int {
+	var o []int
+	for x := 0; x < k; x++ {
+		for i := 0; i < t; i++ {
+			o = append(o, x)
+		}
+	}
+	p := r.Perm(len(o))
+	out := make([]int, len(o))
+	for i, j := range p {
+		out[i] = o[j]
+	}
+	return out
+}
+
 func randomCase(r *vh.RNG, maxN int, seed uint64) *seqCase {
 	n := 1 + r.Intn(maxN)
 	t := 1 + r.Intn(n)
@@ -643,7 +743,7 @@ func main() {
 	run := vh.Start("Verif.Corr.C01", 300)
 	defer run.Finish()
 	run.SetPreamble("From Verif Require Import Model.EpochKGLabels.")
-	run.Rule = "share sequences for real EpochKG.HandleEpochSecretKeyShare (forced: exhaustive length t+2 sequences over two identities for small (n,t), junk of every kind before/at/after the threshold share for all n<=4, t=1, t=n; then random, n<=7); non-trivial = some identity reached the threshold after at least one junk share for it; distinct by canonical op list"
+	run.Rule = "share sequences for real EpochKG.HandleEpochSecretKeyShare (forced: exhaustive length t+2 sequences over two identities for small (n,t), junk of every kind before/at/after the threshold share for all n<=4, t=1, t=n, shares of 2-4 further identities interleaved in all small orders after 1-2 identities completed on the same instance, with and without junk; then random, n<=7); non-trivial = some identity reached the threshold after at least one junk share for it; distinct by canonical op list"
 
 	var cases []*seqCase
 	emit := func(c *seqCase) { cases = append(cases, c) }
@@ -683,7 +783,7 @@ func main() {
 				if total <= budget {
 					exhaustive(n, t, seed, ab, emit)
 					run.Dist[fmt.Sprintf("exhaustive:n=%d,t=%d", n, t)] += total
-					if total*4 <= budget || run.Thorough {
+					if (!run.Thorough && total*4 <= budget) || (run.Thorough && total*8 <= budget) {
 						// the same space over two identities that differ only in their middle bytes
 						exhaustive(n, t, seed, near, emit)
 						run.Dist[fmt.Sprintf("exhaustive-near-identities:n=%d,t=%d", n, t)] += total
@@ -715,13 +815,41 @@ func main() {
 				boundary(run.RNG, n, t, seed, emit)
 			}
 		}
+		// shares of further identities interleaved AFTER one or two identities have completed
+		for t := 2; t <= 3; t++ {
+			for k := 2; k <= 4; k++ {
+				total := countInterleavings(k, t)
+				exhaustiveHere := total <= run.Scale(100, 3000)
+				for n := t; n <= 4; n++ {
+					for pattern := 0; pattern < 3; pattern++ {
+						done := 1 + (n+pattern+k)%2
+						var orders [][]int
+						// the large order sets (thorough tier) are enumerated for one n per pattern
+						if exhaustiveHere && (total <= 100 || n == 3+pattern%2) {
+							interleavings(k, t, func(o []int) { orders = append(orders, o) })
+							run.Dist[fmt.Sprintf("after-completion-exhaustive:k=%d,t=%d", k, t)] += len(orders)
+						} else {
+							for i := run.Scale(25, 400); i > 0; i-- {
+								orders = append(orders, randomInterleaving(run.RNG, k, t))
+							}
+						}
+						for i, o := range orders {
+							emit(afterCompletion(run.RNG, n, t, k, done, pattern, o, 0, seed))
+							if i%3 == 0 {
+								emit(afterCompletion(run.RNG, n, t, k, 3-done, pattern, o, 1+run.RNG.Intn(3), seed))
+							}
+						}
+					}
+				}
+			}
+		}
 		// the sender >= n panic: modelled, outside the property (correspondence only)
 		for _, s := range []int{3, 8} {
 			emit(&seqCase{Kind: "seq", N: 3, T: 2, KeySeed: seed, Idents: ab, Outside: true, Origin: "outside:sender>=n",
 				Ops: []opJ{{Ident: 0, Sender: 0, Kind: kValid}, {Ident: 0, Sender: s, Kind: kValid}, {Ident: 0, Sender: 1, Kind: kValid},
 					{Ident: 0, Sender: s, Kind: kValid}, {Ident: 1, Sender: s, Kind: kBadValue}}})
 		}
-		nr := run.Scale(1000, 25000)
+		nr := run.Scale(1000, 15000)
 		for i := 0; i < nr; i++ {
 			emit(randomCase(run.RNG, 7, seed))
 		}
